@@ -142,3 +142,101 @@ func normalizeReals(v0, v1 slip.Object) (slip.Object, slip.Object) {
 	}
 	return slip.NormalizeNumber(v0, v1)
 }
+
+// unordered is returned by compareReals when one of the values is a NaN.
+const unordered = 2
+
+// compareReals compares two reals by value and returns -1 if x is less than
+// y, 0 if they are equal, 1 if x is greater than y, and unordered if one is a
+// NaN. A rational compared to a float is not rounded to the float type, the
+// exact values are compared. A type-error is raised if x or y is not a real.
+func compareReals(x, y slip.Object) int {
+	if fx, ok := x.(slip.Fixnum); ok {
+		if fy, ok2 := y.(slip.Fixnum); ok2 { // the most common case
+			switch {
+			case fx < fy:
+				return -1
+			case fy < fx:
+				return 1
+			}
+			return 0
+		}
+	}
+	for _, v := range []slip.Object{x, y} {
+		if _, ok := v.(slip.Real); !ok {
+			slip.TypePanic(slip.NewScope(), 0, "numbers", v, "real")
+		}
+	}
+	rx, xok := rationalValue(x)
+	ry, yok := rationalValue(y)
+	switch {
+	case xok && yok:
+		return rx.Cmp(ry)
+	case xok:
+		if ry, yok = finiteFloatValue(y); yok {
+			return rx.Cmp(ry)
+		}
+	case yok:
+		if rx, xok = finiteFloatValue(x); xok {
+			return rx.Cmp(ry)
+		}
+	}
+	// Both are floats or one is an infinity or a NaN.
+	x, y = slip.NormalizeNumber(x, y)
+	switch tx := x.(type) {
+	case slip.SingleFloat:
+		return compareFloats(float64(tx), float64(y.(slip.SingleFloat)))
+	case slip.DoubleFloat:
+		return compareFloats(float64(tx), float64(y.(slip.DoubleFloat)))
+	case *slip.LongFloat:
+		return (*big.Float)(tx).Cmp((*big.Float)(y.(*slip.LongFloat)))
+	}
+	return unordered
+}
+
+func compareFloats(x, y float64) int {
+	switch {
+	case x < y:
+		return -1
+	case y < x:
+		return 1
+	case x == y:
+		return 0
+	}
+	return unordered
+}
+
+// rationalValue returns the value of an integer or ratio as a big.Rat.
+func rationalValue(v slip.Object) (*big.Rat, bool) {
+	switch tv := v.(type) {
+	case slip.Fixnum:
+		return new(big.Rat).SetInt64(int64(tv)), true
+	case slip.Octet:
+		return new(big.Rat).SetInt64(int64(tv)), true
+	case *slip.Bignum:
+		return new(big.Rat).SetInt((*big.Int)(tv)), true
+	case *slip.Ratio:
+		return (*big.Rat)(tv), true
+	case *slip.SignedByte:
+		return rationalValue(tv.AsFixOrBig())
+	case *slip.UnsignedByte:
+		return rationalValue(tv.AsFixOrBig())
+	}
+	return nil, false
+}
+
+// finiteFloatValue returns the exact value of a float as a big.Rat unless it
+// is an infinity or a NaN.
+func finiteFloatValue(v slip.Object) (rat *big.Rat, ok bool) {
+	switch tv := v.(type) {
+	case slip.SingleFloat:
+		rat = new(big.Rat).SetFloat64(float64(tv))
+	case slip.DoubleFloat:
+		rat = new(big.Rat).SetFloat64(float64(tv))
+	case *slip.LongFloat:
+		if !(*big.Float)(tv).IsInf() {
+			rat, _ = (*big.Float)(tv).Rat(nil)
+		}
+	}
+	return rat, rat != nil
+}
